@@ -25,7 +25,7 @@ ASSUMPTIONS = [
     "prefixes bound to one URI; carriage returns",
     "generator and expat reader must agree on the infoset, otherwise the case is inconclusive",
 ]
-REQUIRED = ["imports_raw", "imports_clean", "imports_collapse", "roundtrips", "docs_with_comments", "docs_with_redeclaration",
+REQUIRED = ["imports_after_in_place_edit_of_an_earlier_import", "imports_raw", "imports_clean", "imports_collapse", "roundtrips", "docs_with_comments", "docs_with_redeclaration",
             "docs_with_xml_attr", "docs_with_qualified_attr", "docs_with_cdata", "literal_hits", "blank_kept", "trimmed_to_none"]
 EXHAUSTIVE = {"quick": False, "thorough": False}
 
@@ -195,6 +195,24 @@ def judge(ctx, doc, text, clean, collapse, literals):
             for i, (x, y) in enumerate(zip(a[7], b[7])):
                 stack.append((x, y, f"{p}{a[0]}[{i}]/"))
         ctx.violation(f"import-export-import-unstable:{field}", msg, wit())
+    # ---- a later import of the same text must not see what was done to the dictionaries of this one ---------------
+    marked = set()
+    for n in snapshot.walk(t):
+        for o in (n.attributes, n.extras, n.nsmap):
+            if id(o) not in marked:
+                marked.add(id(o))
+                for k in list(o):
+                    if isinstance(o[k], str):
+                        o[k] = o[k] + "~verif"
+                o["verif-written-after-import"] = "x"
+    try:
+        t3 = metapype_io.from_xml(text, clean, collapse, tuple(literals))
+        ctx.evaluated()
+        ctx.count("imports_after_in_place_edit_of_an_earlier_import")
+        compare(ctx, exp, t3, clean, collapse, literals, lambda: dict(wit(), second_import_after_in_place_edits=True))
+        emlkit.discard(t3)
+    except Exception as e:
+        ctx.violation(f"import-raises:{type(e).__name__}@{emlkit.raise_site(e)}|second-import", f"importing the same text again raised {e!r}", wit())
     if len(snapshot.walk(t)) >= 2 or t.content is not None:
         ctx.distinct((text, clean, collapse, tuple(literals)))
     emlkit.discard(t, t2)
